@@ -116,6 +116,13 @@ func New(prop string) *M {
 		}
 		m.Seed, m.Tier = v.Seed, v.Tier
 		m.replay = &replaySpec{v.Stream, v.Index}
+	} else {
+		// replay files are rewritten by every run: remove this property's old ones
+		if old, err := filepath.Glob(filepath.Join(Root(), "replays", prop+"-*.json")); err == nil {
+			for _, f := range old {
+				os.Remove(f)
+			}
+		}
 	}
 	return m
 }
